@@ -9,6 +9,8 @@ mod c03;
 mod c08;
 mod c10;
 mod c11;
+mod bersup;
+mod c12;
 mod c14;
 mod c15;
 mod c17;
@@ -50,6 +52,7 @@ fn main() {
         ("gen", "C09") => c02::generate_c09(&a),
         ("gen", "C11") => c11::generate(&a),
         ("gen", "C18") => c18::generate(&a),
+        ("gen", "C12") => c12::generate(&a),
         ("gen", "C14") => c14::generate(&a),
         ("gen", "C15") => c15::generate(&a),
         ("gen", "C17") => c17::generate(&a),
